@@ -361,6 +361,9 @@ func (r *yieldRewriter) rewriteIfStmt(
 	// merge elif stmt
 	// 		if {} else { if {} ... }
 	// => 	if {} else if {} ...
+	// the init statement stays where it is, so a yield in it would silently become a no-op
+	r.assert(r.mustNoYield(stmt.Init), stmt, "yield in if initializer not supported")
+
 	unwrapIf := func(block *ast.BlockStmt) ast.Stmt {
 		if block == nil {
 			return nil
